@@ -101,24 +101,24 @@ func init() {
 	}
 	crafted, _ := mh.Encode(D1, mh.BLAKE2B_MIN+31)
 
-	add("b1", cid.NewCidV1(cid.Raw, d1), x1, "x1")                                     // baseline
-	add("b2", cid.NewCidV1(cid.DagCBOR, d1), x1, "x1")                                 // same multihash, other codec
-	add("b3", cid.NewCidV0(d1), x1, "x1")                                              // CIDv0 on the same multihash
-	add("b4", cid.NewCidV1(cid.Raw, mustSum(x7, mh.SHA2_256, -1)), x7, "x7")           // distinct block
-	add("b5", cid.NewCidV1(cid.Raw, idmh(D1)), D1, "xD1")                              // identity, digest bytes = D1
-	add("b6", cid.NewCidV1(cid.Raw, mustSum(x4, mh.BLAKE2B_MIN+31, -1)), x4, "x4")     // second hash function
-	add("b7", cid.NewCidV1(cid.Raw, crafted), x1, "x1")                                // blake2b code with digest D1 (invalid block; stores only)
-	add("b8", cid.NewCidV1(cid.Raw, mustSum(x1, mh.SHA2_512, -1)), x1, "x1")           // 64-byte digest
-	add("b9", cid.NewCidV1(cid.Raw, mustSum(x7, mh.SHA2_256, 20)), x7, "x7")           // truncated digest (20 bytes)
-	add("b10", cid.NewCidV1(cid.Raw, idmh(nil)), []byte{}, "x0")                       // identity, empty
-	add("b11", cid.NewCidV1(cid.Raw, idmh(big)), big, "xbig")                          // identity, 100-byte digest
-	add("b12", cid.NewCidV1(cid.Raw, mustSum(nil, mh.SHA2_256, -1)), []byte{}, "x0")   // empty data, real hash
-	add("b13", cid.NewCidV1(cid.Raw, mustSum(x2, mh.SHA2_256, -1)), x2, "x2")          // section body 127
-	add("b14", cid.NewCidV1(cid.Raw, mustSum(x3, mh.SHA2_256, -1)), x3, "x3")          // section body 128
-	add("b15", cid.NewCidV1(cid.Raw, mustSum(x5, mh.SHA2_256, -1)), x5, "x5")          // section body 16383
-	add("b16", cid.NewCidV1(cid.Raw, mustSum(x6, mh.SHA2_256, -1)), x6, "x6")          // section body 16384
-	add("b17", cid.NewCidV1(cid.DagCBOR, mustSum(x7, mh.SHA2_256, -1)), x7, "x7")      // other codec on b4's multihash
-	add("b18", cid.NewCidV1(cid.Raw, d1), x7, "x7")                                    // b1's CID with other data (invalid; stores only)
+	add("b1", cid.NewCidV1(cid.Raw, d1), x1, "x1")                                   // baseline
+	add("b2", cid.NewCidV1(cid.DagCBOR, d1), x1, "x1")                               // same multihash, other codec
+	add("b3", cid.NewCidV0(d1), x1, "x1")                                            // CIDv0 on the same multihash
+	add("b4", cid.NewCidV1(cid.Raw, mustSum(x7, mh.SHA2_256, -1)), x7, "x7")         // distinct block
+	add("b5", cid.NewCidV1(cid.Raw, idmh(D1)), D1, "xD1")                            // identity, digest bytes = D1
+	add("b6", cid.NewCidV1(cid.Raw, mustSum(x4, mh.BLAKE2B_MIN+31, -1)), x4, "x4")   // second hash function
+	add("b7", cid.NewCidV1(cid.Raw, crafted), x1, "x1")                              // blake2b code with digest D1 (invalid block; stores only)
+	add("b8", cid.NewCidV1(cid.Raw, mustSum(x1, mh.SHA2_512, -1)), x1, "x1")         // 64-byte digest
+	add("b9", cid.NewCidV1(cid.Raw, mustSum(x7, mh.SHA2_256, 20)), x7, "x7")         // truncated digest (20 bytes)
+	add("b10", cid.NewCidV1(cid.Raw, idmh(nil)), []byte{}, "x0")                     // identity, empty
+	add("b11", cid.NewCidV1(cid.Raw, idmh(big)), big, "xbig")                        // identity, 100-byte digest
+	add("b12", cid.NewCidV1(cid.Raw, mustSum(nil, mh.SHA2_256, -1)), []byte{}, "x0") // empty data, real hash
+	add("b13", cid.NewCidV1(cid.Raw, mustSum(x2, mh.SHA2_256, -1)), x2, "x2")        // section body 127
+	add("b14", cid.NewCidV1(cid.Raw, mustSum(x3, mh.SHA2_256, -1)), x3, "x3")        // section body 128
+	add("b15", cid.NewCidV1(cid.Raw, mustSum(x5, mh.SHA2_256, -1)), x5, "x5")        // section body 16383
+	add("b16", cid.NewCidV1(cid.Raw, mustSum(x6, mh.SHA2_256, -1)), x6, "x6")        // section body 16384
+	add("b17", cid.NewCidV1(cid.DagCBOR, mustSum(x7, mh.SHA2_256, -1)), x7, "x7")    // other codec on b4's multihash
+	add("b18", cid.NewCidV1(cid.Raw, d1), x7, "x7")                                  // b1's CID with other data (invalid; stores only)
 
 	add("b19", cid.NewCidV1(cid.Raw, idmh(huge)), huge, "xhuge") // identity, 200-byte digest: CID longer than 128 bytes
 
@@ -137,6 +137,12 @@ func init() {
 	add("b24", cid.NewCidV1(cid.Raw, idmh([]byte("common--pfxB"))), []byte("common--pfxB"), "xpB")
 	// ... and one whose whole digest is a proper prefix of theirs
 	add("b25", cid.NewCidV1(cid.Raw, idmh([]byte("common--pfx"))), []byte("common--pfx"), "xpP")
+
+	// a CID whose hash function no hasher is registered for (sha2-256-trunc254-padded, 0x1012): nothing can
+	// verify the block, so a verifying reader must fail on it; "valid" is FALSE for it
+	x10 := []byte("block under an unregistered hash function")
+	un, _ := mh.Encode(mustSum(x10, mh.SHA2_256, -1)[2:], 0x1012)
+	add("b26", cid.NewCidV1(cid.Raw, un), x10, "x10")
 
 	// digest identities
 	type dk struct{ s string }
